@@ -358,6 +358,8 @@ func runC13(c *Ctx, r *Report) {
 		}
 		r.Floor("R-C13.12", "methods of the log that call a self-locking method of the same log", nview, 1)
 	}
+	r.Doc("R-C13.14", "the access-controller callbacks run under the log's write lock and never take the log's lock themselves (a context accessor that goes through a locking getter blocks inside CanAppend for good: Append or Join never returns and every later operation on the log hangs)")
+	callbacksTakeNoLogLock(c, r, "R-C13.14")
 	r.Doc("R-C13.13", "the head map a log publishes is never edited: merging head sets builds a new map (adopted from C14: readers look at the map they took after releasing the lock; a merge that adds to it in place shows them an old head together with its successor — a head set the log never had)")
 	importRules(c, r, "C14", []string{"R-C14.4"}, "R-C13.13")
 	r.Doc("R-C13.9", "lock-order graph between lock classes is acyclic; no write re-acquisition of a held lock")
